@@ -422,3 +422,5 @@ def check(ctx, rep):
     partial_digestion(ctx, rep, 'C06g')
     from .common import optional_number_tests_rule
     optional_number_tests_rule(ctx, rep, 'C06c', ('peptacular.spans', 'peptacular.digestion'))
+    from .common import unmodified_fast_path_rule
+    unmodified_fast_path_rule(ctx, rep, 'C06b', ('peptacular.digestion',))
